@@ -27,7 +27,10 @@ class Runaway(Exception):
 
 
 class Sentinel:
+    """stands for an open channel in the map (as far as the allocator may look at an entry: it is not closed)"""
     __slots__ = ("__weakref__", "cid")
+    closed = False
+    active = True
 
     def __init__(self, cid):
         self.cid = cid
@@ -108,7 +111,12 @@ class Rig:
         if not isinstance(cid, int) or not (0 <= cid < M24):
             self.problems.append(("id-out-of-range", "allocated id %r" % (cid,)))
         if cid in self.held:
-            self.problems.append(("id-in-use", "allocated id %d while a live channel holds it" % cid))
+            o = self.held[cid]
+            half = (not isinstance(o, Sentinel)) and getattr(o, "closed", False)
+            self.problems.append(("id-in-use:closed-locally-peer-close-outstanding" if half else "id-in-use",
+                                  "allocated id %d while %s" % (cid, "a channel we closed is still registered under it "
+                                                                "(the peer's CLOSE has not arrived)" if half
+                                                                else "a live channel holds it")))
         if self.pending is not None and cid == self.pending:
             self.problems.append(("id-in-use:pending-peer-open",
                                   "allocated id %d while _parse_channel_open holds it" % cid))
@@ -239,8 +247,12 @@ class Rig:
                                           "handling the peer's CLOSE for channel %d (remote id %r) removed the open "
                                           "channel %d from the map" % (cid, getattr(obj, "remote_chanid", None), oid)))
                     break
-        elif how == "unlink":
+        elif how == "unlink" and not obj.closed:
             obj._unlink()
+        elif how == "unlink":
+            # Channel._unlink() returns at once for a channel we already closed (its entry waits for the peer's
+            # CLOSE): that is what then removes it
+            obj._handle_close(None)
         else:  # weak reference dies
             del obj
             if self.t._channels.get(cid) is not None:
@@ -327,6 +339,9 @@ def gen_history(rng, server_mode, nops, wrap_refusal=0):
                 ops.append(("peer", kind, True, []))
         elif r < 0.88:
             ops.append(("del", rng.randrange(6), rng.choice(["map", "peer-close", "unlink", "gc"])))
+        elif r < 0.93:
+            # local close(): EOF and CLOSE go out, the entry STAYS registered until the peer's CLOSE arrives
+            ops.append(("halfclose", rng.randrange(4)))
         else:
             # peer-sent OPEN_FAILURE / OPEN_CONFIRMATION naming an established or an unknown id
             ops.append(("pmsg", rng.choice(["fail", "fail", "succ"]), rng.choice(["established", "established", "unknown"]),
@@ -375,6 +390,20 @@ def run_history(rig, counter, ids, ops):
         reqs.append("del %d" % v)
         impl.append("ok")
 
+    def do_halfclose(k):
+        # no model action: the map is unchanged (RFC 4254 5.3: the number is in use until both CLOSEs are exchanged)
+        counter = rig.t._channel_counter
+        real = sorted((i for i, o in rig.held.items() if not isinstance(o, Sentinel) and not o.closed),
+                      key=lambda i: (i - counter) % M24)
+        if not real:
+            return
+        v = real[k % len(real)]
+        rig.held[v].close()
+        info["half_closed"] = info.get("half_closed", 0) + 1
+        if rig.t._channels.get(v) is not rig.held[v]:
+            rig.problems.append(("locally-closed-channel-left-the-map-before-the-peers-close",
+                                 "id %d" % v))
+
     def do_pmsg(kind, target, k, reqs, impl):
         counter = rig.t._channel_counter
         if target == "established":
@@ -394,6 +423,9 @@ def run_history(rig, counter, ids, ops):
       try:
           if op[0] == "pmsg":
               do_pmsg(op[1], op[2], op[3], reqs, impl)
+              continue
+          if op[0] == "halfclose":
+              do_halfclose(op[1])
               continue
           if op[0] == "local":
               do_local(op[1], op[2], reqs, impl)
@@ -584,6 +616,54 @@ def refusal_during_peer_open(ctx, rng):
     return case, reqs, impl
 
 
+def reuse_of_half_closed(ctx, rng):
+    """A channel we closed (EOF and CLOSE sent, the peer's CLOSE still outstanding) stays registered; the counter is
+    moved back onto its id by hand (standing for a full trip round the 24-bit ring); the next opens — local and
+    peer — must step over it.  Returns (case, model requests, real replies)."""
+    rig = Rig(True)
+    counter, ids = gen_layout(rng, False)
+    ids = [i for i in ids if (i - counter) % M24 > 6]
+    rig.seed(counter, ids)
+    reqs = ["init %d %s" % (counter, ",".join(map(str, ids)) or "-")]
+    impl = ["ok"]
+    cid, c = rig.local_open(True)
+    reqs.append("local")
+    impl.append("%d %d" % (cid, c))
+    chan = rig.held[cid]
+    chan.close()                                  # closed = True, still in the map
+    still = rig.t._channels.get(cid) is chan
+    rig.t._channel_counter = cid                  # … the counter comes round to it
+    reqs.append("init %d %s" % (cid, ",".join(map(str, sorted(ids + [cid])))))
+    impl.append("ok")
+    second = rng.choice(["local", "peer"])
+    if second == "local":
+        cid2, c2 = rig.local_open(True)
+        reqs.append("local")
+        impl.append("%d %d" % (cid2, c2))
+    else:
+        res = rig.peer_open("session", True, None)
+        cid2 = res[0] if res else None
+        if res:
+            reqs += ["palloc", "pput"]
+            impl += ["%d %d" % (res[0], res[1]), "ok 0 0"]
+    case = {"scenario": "counter comes round to the id of a channel closed locally whose peer CLOSE is outstanding",
+            "counter": counter, "sentinels": ids[:30], "half_closed_id": cid, "still_registered_after_close": still,
+            "next_open": second, "id_handed_out": cid2}
+    ctx.case(("reuse-half-closed", counter, tuple(ids), second), True)
+    ctx.dist("half-closed-reuse-scenarios")
+    if not still:
+        ctx.fail("locally-closed-channel-left-the-map-before-the-peers-close", case, "id %d" % cid)
+    for sig, detail in rig.problems[:3]:
+        ctx.fail(sig, case, detail)
+    if rig.t._channels.get(cid) is not chan:
+        ctx.fail("registered-entry-overwritten:closed-locally-peer-close-outstanding", case,
+                 "id %d now maps to another channel; the peer's CLOSE / exit-status / data for the old channel will "
+                 "reach the new one" % cid)
+    reqs.append("live")
+    impl.append(",".join(map(str, rig.keys())) or "-")
+    return case, reqs, impl
+
+
 def gated_allocators(ctx, rng):
     """Two allocators, the first stopped (sys.settrace) between `_next_channel`'s map lookup and its counter
     increment — but only if it does NOT hold the transport lock there (a holder cannot be overtaken).  On the code
@@ -745,10 +825,16 @@ def run(ctx):
         ctx.dist("histories-wrapping-2^24", 1 if info["wrapped"] else 0)
         ctx.dist("nested-ops-inside-server-callback", info["nested"])
         ctx.dist("peer-open-replies-naming-established-or-unknown-ids", info.get("peer_replies", 0))
+        ctx.dist("channels-closed-locally-with-the-peers-close-outstanding", info.get("half_closed", 0))
         if h % 400 == 0:
             ctx.sample({"case": case, "model_requests": reqs[:30], "impl": impl[:30]})
         for sig, detail in rig.problems[:3]:
             ctx.fail(sig, case, detail)
+        spans.append((len(all_reqs), len(reqs)))
+        all_reqs += reqs
+        cases.append((case, impl))
+    for _ in range(60 if ctx.thorough else 20):
+        case, reqs, impl = reuse_of_half_closed(ctx, rng)
         spans.append((len(all_reqs), len(reqs)))
         all_reqs += reqs
         cases.append((case, impl))
